@@ -389,7 +389,11 @@ class TestManager:
         extra_dir = self.get_extra_dir('cvise_extra_', self.MAX_EXTRA_DIRS)
         if extra_dir is not None:
             os.mkdir(extra_dir)
-            shutil.move(test_case_path, extra_dir)
+            if os.path.isdir(test_case_path):
+                shutil.move(test_case_path, extra_dir)
+            else:
+                # keep the variant in its folder: a later bug report may still dump it
+                shutil.copy(test_case_path, extra_dir)
             logging.info(f'Created extra directory {extra_dir} for you to look at later')
 
     def process_done_futures(self):
